@@ -87,6 +87,11 @@ func SetLogicalMtime(on bool) {
 	mu.Unlock()
 }
 
+// LogicalTick is the distance between two logical mtimes.  It is deliberately
+// smaller than a second: versions are told apart by size and modification
+// time, and a tag that only had second granularity must not go unnoticed.
+var LogicalTick = time.Millisecond
+
 // LogicalBase is the mtime of tick 0.
 var LogicalBase = time.Date(2029, 1, 1, 0, 0, 0, 0, time.UTC)
 
@@ -96,7 +101,7 @@ func stamp(path string) {
 	if on {
 		tick++
 	}
-	t := LogicalBase.Add(time.Duration(tick) * time.Second)
+	t := LogicalBase.Add(time.Duration(tick) * LogicalTick)
 	mu.Unlock()
 	if on && path != "" {
 		stdos.Chtimes(path, t, t)
